@@ -14,7 +14,7 @@
 (* (zero-extended or truncated) to the operation width w, the result has   *)
 (* width w.  Written from that documentation, never from the evaluator.    *)
 (***************************************************************************)
-EXTENDS Integers, Sequences, Bitwise, TLC
+EXTENDS Integers, Sequences, SequencesExt, Bitwise, TLC
 
 \* Bind an expression to a concrete value before using it several times.
 \* (TLC evaluates LET definitions and operator arguments lazily.)
@@ -22,6 +22,11 @@ Let1(E, F(_))            == CHOOSE y \in {F(x) : x \in {E}} : TRUE
 Let2(E1, E2, F(_,_))     == CHOOSE y \in {F(x1, x2) : x1 \in {E1}, x2 \in {E2}} : TRUE
 Let3(E1, E2, E3, F(_,_,_)) ==
     CHOOSE y \in {F(x1, x2, x3) : x1 \in {E1}, x2 \in {E2}, x3 \in {E3}} : TRUE
+
+\* <<1, ..., n>>.  Loops are written as FoldLeft over an index tuple: FoldLeft
+\* is iterated natively by TLC, whereas a RECURSIVE operator nests one evaluation
+\* context per level (measured: deep recursion makes evaluation quadratic).
+Idx(n)    == TLCEval([i \in 1..n |-> i])
 
 Byte      == 0..255
 IsValue(v) == /\ DOMAIN v = 1..Len(v)
@@ -60,12 +65,10 @@ FromBits(bs) == Let1(bs, LAMBDA x :
 (***************************************************************************)
 (* Addition modulo 2^(8w).                                                 *)
 (***************************************************************************)
-RECURSIVE AddRec(_,_,_,_,_)
-AddRec(a, b, i, c, acc) ==
-    IF i > Len(a) THEN acc
-    ELSE Let1(a[i] + b[i] + c, LAMBDA s :
-              AddRec(a, b, i + 1, s \div 256, Append(acc, s % 256)))
-Add(x, y, w) == Let2(Adapt(x, w), Adapt(y, w), LAMBDA a, b : AddRec(a, b, 1, 0, <<>>))
+AddStep(a, b, acc, i) ==
+    Let1(a[i] + b[i] + acc.c, LAMBDA s : [c |-> s \div 256, r |-> Append(acc.r, s % 256)])
+Add(x, y, w) == Let2(Adapt(x, w), Adapt(y, w), LAMBDA a, b :
+                  FoldLeft(LAMBDA acc, i : AddStep(a, b, acc, i), [c |-> 0, r |-> <<>>], Idx(w)).r)
 
 (***************************************************************************)
 (* Bitwise NAND.                                                           *)
@@ -99,15 +102,12 @@ Geu(x, y, w) == ~Ltu(x, y, w)
 (* Multiplication modulo 2^(8w): school-book columns.                      *)
 (* A column sum is at most 255*255*255 + carry < 2^31.                     *)
 (***************************************************************************)
-RECURSIVE ColSum(_,_,_,_,_)
-ColSum(a, b, k, i, acc) ==          \* sum over i+j = k+1 of a[i]*b[j], i from 1
-    IF i > k THEN acc ELSE ColSum(a, b, k, i + 1, acc + a[i] * b[k + 1 - i])
-RECURSIVE MulRec(_,_,_,_,_)
-MulRec(a, b, k, c, acc) ==
-    IF k > Len(a) THEN acc
-    ELSE Let1(ColSum(a, b, k, 1, c), LAMBDA s :
-              MulRec(a, b, k + 1, s \div 256, Append(acc, s % 256)))
-Mul(x, y, w) == Let2(Adapt(x, w), Adapt(y, w), LAMBDA a, b : MulRec(a, b, 1, 0, <<>>))
+ColSum(a, b, k, c) ==               \* c + sum over i+j = k+1 of a[i]*b[j]
+    FoldLeft(LAMBDA acc, i : acc + a[i] * b[k + 1 - i], c, Idx(k))
+MulStep(a, b, acc, k) ==
+    Let1(ColSum(a, b, k, acc.c), LAMBDA s : [c |-> s \div 256, r |-> Append(acc.r, s % 256)])
+Mul(x, y, w) == Let2(Adapt(x, w), Adapt(y, w), LAMBDA a, b :
+                  FoldLeft(LAMBDA acc, k : MulStep(a, b, acc, k), [c |-> 0, r |-> <<>>], Idx(w)).r)
 
 (***************************************************************************)
 (* Shifts.  The shift amount is the second operand adapted to w bytes; a   *)
@@ -147,24 +147,22 @@ ShlBit(r, bit) ==                   \* (r * 2 + bit) at the width of r
       TLCEval([i \in 1..Len(a) |->
                  ((a[i] * 2) % 256) + (IF i = 1 THEN bit ELSE a[i - 1] \div 128)]))
 
-RECURSIVE DivRec(_,_,_,_,_)
-\* abits: bits of the dividend (little endian); k: current bit (from the top);
+\* abits: bits of the dividend (little endian), consumed from the top;
 \* r: remainder (w+1 bytes); q: quotient bits collected so far, MOST
 \* significant first.
-DivRec(abits, d, k, r, q) ==
-    IF k = 0 THEN [q |-> q, r |-> r]
-    ELSE Let1(ShlBit(r, abits[k]), LAMBDA r2 :
-           IF Ltu(r2, d, Len(r2))
-           THEN DivRec(abits, d, k - 1, r2, Append(q, 0))
-           ELSE Let1(Sub(r2, d, Len(r2)), LAMBDA r3 :
-                     DivRec(abits, d, k - 1, r3, Append(q, 1))))
+DivStep(abits, d, n, acc, k) ==
+    Let1(ShlBit(acc.r, abits[n + 1 - k]), LAMBDA r2 :
+       IF Ltu(r2, d, Len(r2))
+       THEN [r |-> r2, q |-> Append(acc.q, 0)]
+       ELSE [r |-> Sub(r2, d, Len(r2)), q |-> Append(acc.q, 1)])
+DivRec(abits, d, n, r0) == FoldLeft(LAMBDA acc, k : DivStep(abits, d, n, acc, k), [r |-> r0, q |-> <<>>], Idx(n))
 
-Reverse(s) == Let1(s, LAMBDA x : TLCEval([i \in 1..Len(x) |-> x[Len(x) + 1 - i]]))
+RevSeq(s) == Let1(s, LAMBDA x : TLCEval([i \in 1..Len(x) |-> x[Len(x) + 1 - i]]))
 
 DivMod(x, y, w) ==                  \* [q, r], both of width w; y # 0
     Let2(Adapt(x, w), Adapt(Adapt(y, w), w + 1), LAMBDA a, d :
-       Let1(DivRec(Bits(a), d, 8 * w, Zeros(w + 1), <<>>), LAMBDA res :
-            [q |-> FromBits(Reverse(res.q)), r |-> Adapt(res.r, w)]))
+       Let1(DivRec(Bits(a), d, 8 * w, Zeros(w + 1)), LAMBDA res :
+            [q |-> FromBits(RevSeq(res.q)), r |-> Adapt(res.r, w)]))
 
 Div(x, y, w) == IF IsZero(Adapt(y, w)) THEN AllOnes(w) ELSE DivMod(x, y, w).q
 \* Unsigned remainder; the dividend on a zero divisor.
